@@ -149,5 +149,13 @@ theorem historyWiring_memorableBody : Gen.HistoryWiring.memorableBody =
 /-- `ObjectTemplate._generate_row` statements -/
 theorem historyWiring_generateRowBody : Gen.HistoryWiring.generateRowBody =
   ["id = context.generate_id(self.nickname)", "row = {'id': id}", "if self.update_key:\n    row['_sf_update_key'] = self.update_key", "sobj = ObjectRow(self.tablename, row, index)", "context.register_object(sobj, self.nickname, self.just_once)", "self._generate_fields(context, row)", "context.remember_row(self.tablename, self.nickname, row)", "with self.exception_handling('Cannot write row'):\n    if not self.tablename.startswith('__'):\n        output_stream.write_row(self.tablename, context.filter_row_values(row))", "context.interpreter.loop_over_templates_once(self.friends, True)", "return sobj"] := rfl
+/-- **The state key of a `random_reference` call site is the identity of the parsed object**
+    (`str(id(self))`, installed by `render`), not its source position: two templates that receive the
+    same field text (macro, YAML alias / merge key, included file) are parsed into two objects and
+    therefore keep two `RandomReferenceContext`s — the hypothesis under which `uniqueRun` (one
+    request sequence per call site) and `unique_per_parent_no_repeat` describe a picker field.
+    (C17 pins the same assignment for `for_each`: `C17Bridge.call_site_key_is_object_identity`.) -/
+theorem historyWiring_callSiteKey : Gen.HistoryWiring.callSiteKey =
+  ["str(id(self))", "context.unique_context_identifier = self.unique_context_identifier", "str(id(self))", "old_context_identifier"] := rfl
 
 end SnowModel.Props.C10Bridge
